@@ -162,7 +162,21 @@ def replay_one(chk, path, pid):
         if not v["accepted"]:
             log("VIOLATION property=%s replay=%s" % (pid, path))
         return 0 if v["accepted"] else 1
-    if sc.get("kind") in ("dens-hang", "dens-big"):
+    if sc.get("kind") == "dens-big":
+        # the large cases are run again with the seed of the scenario and the same case is looked up
+        of = os.path.join(chk.wd, "big_replay.json")
+        rc, out = harness("dm", ["big", "out=" + of, "seed=%d" % sc.get("seed", chk.seed), "thorough=0"], timeout=1800, ok=(0, 7))
+        bad = rc == 7
+        if not bad:
+            c0 = sc["case"]
+            for c in json.load(open(of))["cases"]:
+                if (c["alg"], c["ft"], c["m"], c["n"]) == (c0["alg"], c0["ft"], c0["m"], c0["n"]):
+                    log("case %s %s m=%d n=%d: %s" % (c["alg"], c["ft"], c["m"], c["n"], c["bad"] or "as specified"))
+                    bad = bad or bool(c["bad"])
+        if bad:
+            log("VIOLATION property=%s replay=%s" % (pid, path))
+        return 1 if bad else 0
+    if sc.get("kind") == "dens-hang":
         log("scenario: %s" % json.dumps(sc)[:2000])
         log("re-run ./check %s with the same VERIF_SEED to reproduce on the current tree" % pid)
         return 1
